@@ -296,7 +296,8 @@ Fixpoint results_get (results : list (str * deliver_result)) (r : str) : option 
 
 Inductive data_reply :=
 | DR503                                   (* no recipients *)
-| DR554                                   (* read / parse / validate failure: ONE reply *)
+| DR_refused (code : Z) (n : nat)         (* Session.rejectMessage: read / parse / validate failure,
+                                            one reply of that code per accepted recipient *)
 | DR_per (replies : list bool).           (* per recipient: true = 250, false = 550 *)
 
 Record data_out := mkDataOut {
@@ -317,9 +318,9 @@ Definition handle_data (cfg : config) (d : db) (recipients : list str) (m : mess
   match recipients with
   | [] => mkDataOut DR503 [] [] d
   | _ =>
-      if (max_size cfg <? m_size m) then mkDataOut DR554 [] [] d          (* ReadDataCommand *)
-      else if negb (m_parse_ok m) then mkDataOut DR554 [] [] d            (* ParseMessage *)
-      else if (max_size cfg <? m_size m) then mkDataOut DR554 [] [] d     (* ValidateMessage *)
+      if (max_size cfg <? m_size m) then mkDataOut (DR_refused 552 (length recipients)) [] [] d   (* ReadDataCommand: ErrMessageTooLarge *)
+      else if negb (m_parse_ok m) then mkDataOut (DR_refused 554 (length recipients)) [] [] d   (* ParseMessage *)
+      else if (max_size cfg <? m_size m) then mkDataOut (DR_refused 554 (length recipients)) [] [] d   (* ValidateMessage *)
       else
         let logged := quota_log cfg d recipients m in                      (* result ignored *)
         let '(results, d') := deliver_to_multiple d recipients m (default_folder cfg) in
@@ -358,6 +359,10 @@ Fixpoint handle_rcpts_addr (cfg : config) (d : db) (recipients : list str) (addr
 Definition run_txn_addr (cfg : config) (d : db) (addrs : list str) (m : message) : txn_out :=
   let '(rs, recipients) := handle_rcpts_addr cfg d [] addrs in
   mkTxnOut rs recipients (handle_data cfg d recipients m).
+
+(** number of reply lines after the end of data *)
+Definition reply_count (r : data_reply) : nat :=
+  match r with DR503 => 0%nat | DR_refused _ n => n | DR_per replies => length replies end.
 
 (** observable outcome per RCPT line *)
 Inductive moutcome := MRefused | MFiled (st : store) (folder : str) | MInconsistent.
